@@ -12,7 +12,8 @@ RULE = ("(a) histories: array shape (1-D length 1-6, 2-D up to 4x4), contents mi
         "stored into other matrices do not alias it); emitted constraints "
         "satisfied and reported values equal to wire expressions at the end; the same history re-run with other in-range "
         "secret index values must give the identical canonical trace; deterministic long arrays (31 ... 129, thorough 257 "
-        "elements; 65x2, 2x65 matrices) accessed at the first, a middle and the last position. (b) small-field search (p=67): for every length "
+        "elements; 65x2, 2x65 matrices) accessed at the first, a middle and the last position. (a2) arrays of 3 and 4 dimensions: tuple indices of every length mixing secret and plain positions in any order, reads (element or sub-array) "
+        "and writes (element or sub-array) against nested lists, out-of-range positions, trace equality across in-range index values. (b) small-field search (p=67): for every length "
         "1-4 and every position, circuit of a read (and of a write) with the index wire freed: for EVERY index value in "
         "F_p the witness space is enumerated completely - outside [0,len) there must be no satisfying assignment, inside "
         "the read result (every element after a write) must be uniquely the model's. Non-trivial = secret index, length "
@@ -245,6 +246,159 @@ def history_case(case, draw=None):
     return None, info
 
 
+# ---- arrays of three and four dimensions, tuple indices of every length mixing secret and plain positions in any order
+
+def _nd_build(ns, contents, mask):
+    if isinstance(contents, list):
+        return ns.ar.Array([_nd_build(ns, c, m) for c, m in zip(contents, mask)])
+    return ns.rt.PrivVal(contents) if mask else contents
+
+
+def _nd_fill(shape, base):
+    if not shape:
+        return base
+    return [_nd_fill(shape[1:], base + k * (7 if len(shape) > 1 else 1)) for k in range(shape[0])]
+
+
+def _nd_const(shape, v):
+    if not shape:
+        return v
+    return [_nd_const(shape[1:], v) for _ in range(shape[0])]
+
+
+def run_nd(case):
+    ns = env.reset(ir.resolve_p(case["p"]), case["b"], 0)
+    rec = ns.rec
+    shape = case["shape"]
+    model = copy.deepcopy(case["contents"])
+    arr = _nd_build(ns, case["contents"], case["mask"])
+    info = {"secret_reads": 0, "partial": 0, "oob": 0, "write_then_other_read": False, "last_write": None}
+    for step, (kind, idx, sec, wval, wsec) in enumerate(case["ops"]):
+        api_idx = tuple(ns.rt.PrivVal(i) if s_ else i for i, s_ in zip(idx, sec))
+        key = api_idx[0] if len(api_idx) == 1 and step % 2 else api_idx
+        ok = all((0 <= i < n) if s_ else (-n <= i < n) for i, s_, n in zip(idx, sec, shape))
+        what = "%s at %r (secret positions %r) of an array of shape %r" % ("read" if kind == "r" else "write", idx, sec, shape)
+        try:
+            if kind == "r":
+                got = arr[key]
+                if not ok:
+                    return "%s returned %r although the index is outside the array" % (what, plain(ns, got)), info
+                want = model
+                for i in idx:
+                    want = want[i]
+                if plain(ns, got) != want:
+                    return "step %d: %s returned %r, model has %r" % (step, what, plain(ns, got), want), info
+                if any(sec):
+                    info["secret_reads"] += 1
+                    if info["last_write"] is not None and info["last_write"] != tuple(i % n for i, n in zip(idx, shape)):
+                        info["write_then_other_read"] = True
+                if len(idx) < len(shape):
+                    info["partial"] += 1
+            else:
+                rest = shape[len(idx):]
+                sub = _nd_fill(rest, wval)
+                w = _nd_build(ns, sub, _nd_const(rest, bool(wsec)))
+                arr[key] = w
+                if not ok:
+                    return "%s was accepted although the index is outside the array" % what, info
+                tgt = model
+                for i in idx[:-1]:
+                    tgt = tgt[i]
+                tgt[idx[-1]] = copy.deepcopy(sub)
+                if any(sec):
+                    info["last_write"] = tuple(i % n for i, n in zip(idx, shape))
+                if len(idx) < len(shape):
+                    info["partial"] += 1
+        except IndexError:
+            if ok:
+                return "step %d: %s raised IndexError" % (step, what), info
+            info["oob"] += 1
+        if plain(ns, arr) != model:
+            return "step %d: after the %s the array is %r, model is %r" % (step, what, plain(ns, arr), model), info
+    bad = r1cs.evaluate(rec.snapshot())
+    if bad:
+        return "constraint #%d violated by the recorded witness" % bad[0], info
+    for path, leaf in ir.secret_leaves(ns, arr, "arr"):
+        if (leaf.value - r1cs.lc_value(leaf.lc.d, rec.vals, rec.P)) % rec.P:
+            return "%s reports %d but its wire expression evaluates differently" % (path, leaf.value), info
+    info["canon"] = r1cs.canonical(rec.snapshot(), [l.lc.d for _, l in ir.secret_leaves(ns, arr, "arr")])
+    return None, info
+
+
+def draw_nd(draw):
+    depth = draw(st.sampled_from([3, 3, 3, 4]))
+    shape = [draw(st.integers(1, 3 if depth == 3 else 2)) for _ in range(depth)]
+
+    def gen(sh, what):
+        if not sh:
+            return draw(what)
+        return [gen(sh[1:], what) for _ in range(sh[0])]
+    contents = gen(shape, st.integers(-5, 9))
+    allsec = draw(st.sampled_from([None, None, True, False]))
+    mask = gen(shape, st.booleans() if allsec is None else st.just(allsec))
+    ops = []
+    for _ in range(draw(st.integers(1, 4))):
+        kind = draw(st.sampled_from(["r", "r", "w"]))
+        nidx = draw(st.integers(1, depth))
+        idx, sec = [], []
+        for d in range(nidx):
+            n = shape[d]
+            idx.append(draw(st.one_of(*([st.integers(0, n - 1)] * 12 + [st.sampled_from([-1, n, n + 1, -n, -n - 1])]))))
+            sec.append(draw(st.sampled_from([True, True, False])))
+        ops.append([kind, idx, sec, draw(st.integers(-5, 9)), draw(st.booleans())])
+    return {"part": "nd", "p": draw(st.sampled_from(["bn128", "curve25519", 257])), "b": draw(st.sampled_from([4, 8, 16])),
+            "shape": shape, "contents": contents, "mask": mask, "ops": ops}
+
+
+def nd_case(case, draw=None):
+    msg, info = run_nd(case)
+    if msg:
+        return msg, info
+    alt = case.get("alt")
+    if alt is None and draw is not None:
+        alt = {}
+        for step, (kind, idx, sec, _, _) in enumerate(case["ops"]):
+            if any(sec) and all((0 <= i < n) if s_ else (-n <= i < n) for i, s_, n in zip(idx, sec, case["shape"])):
+                alt[str(step)] = [draw(st.integers(0, n - 1)) if s_ else i for i, s_, n in zip(idx, sec, case["shape"])]
+        case["alt"] = alt
+    if alt:
+        c2 = copy.deepcopy(case)
+        for step, idx in alt.items():
+            c2["ops"][int(step)][1] = idx
+        msg2, info2 = run_nd(c2)
+        if msg2:
+            return "with other in-range index values: " + msg2, info
+        if info2.get("canon") != info.get("canon"):
+            return "canonical trace differs between index values %r and %r" % ([o[1] for o in case["ops"]], [o[1] for o in c2["ops"]]), info
+        info["trace_compared"] = True
+    return None, info
+
+
+def nd_shard(seed, n_examples):
+    stats = core.Stats()
+
+    @given(st.data())
+    def test(data):
+        case = draw_nd(data.draw)
+        msg, info = nd_case(case, data.draw)
+        nt = info["secret_reads"] > 0 and (info["partial"] > 0 or info["write_then_other_read"])
+        labels = ["dim:%d" % len(case["shape"])]
+        if info["oob"]:
+            labels.append("out-of-range-access")
+        if info.get("trace_compared"):
+            labels.append("trace-compared")
+        if info["partial"]:
+            labels.append("index-shorter-than-depth")
+        stats.case(case if nt else None, nt, labels)
+        if msg:
+            raise core.Violation(case, msg, "nd")
+
+    v = core.drive(test, seed, n_examples)
+    if v is not None:
+        stats.violations.append({"case": v.case, "msg": v.msg, "key": v.key})
+    return stats
+
+
 def history_shard(seed, n_examples):
     stats = core.Stats()
 
@@ -384,6 +538,8 @@ def large_shard(cases):
 def replay(case):
     if case.get("part") == "search":
         return search_case(case)[0]
+    if case.get("part") == "nd":
+        return nd_case(case)[0]
     return history_case(case)[0]
 
 
@@ -394,6 +550,8 @@ def run(ctx):
     n = 200 if ctx.tier == "quick" else 4000
     total.merge_json(core.run_shards("harness.checks.c15", "history_shard",
                                      [dict(seed=ctx.seed * 1000 + i, n_examples=n) for i in range(16)]).to_json())
+    total.merge_json(core.run_shards("harness.checks.c15", "nd_shard",
+                                     [dict(seed=ctx.seed * 1000 + 500 + i, n_examples=n // 4) for i in range(16)]).to_json())
     cases = []
     lens = [1, 2, 3, 4] if ctx.tier == "quick" else [1, 2, 3, 4, 5, 6]
     for L in lens:
